@@ -46,6 +46,9 @@ func c14Gen(r *Rand, tier string, i int) Scenario {
 		var ops []C14Op
 		for k := 0; k < n; k++ {
 			op := C14Op{Kind: c14Kinds[r.Intn(len(c14Kinds))], HoldMs: PickOf(r, 200, 250, 300, 400), Abrupt: r.Bool(0.3)}
+			if r.Bool(0.06) {
+				op.HoldMs = PickOf(r, 11000, 16000) // a connection that stays (idle) for a long time
+			}
 			if !burst {
 				op.StartMs = PickOf(r, 0, 1, 5, 20, 40)
 			}
@@ -327,6 +330,26 @@ func c14Run(t *testing.T, s Scenario, src verifsim.DecisionSource, keep bool) *R
 				}
 			} else {
 				probes["limit-reached"]++
+			}
+			long := false
+			for _, op := range ops {
+				if op.HoldMs > 10000 {
+					long = true
+				}
+			}
+			if long && violation == "" {
+				// check A2: ten seconds later the long-lived connections are still
+				// open and must still be counted
+				w.Sleep(10500 * time.Millisecond)
+				held2 := 0
+				for _, st := range states {
+					if st.established && !st.ended && st.rs != nil && st.rs.Conn != nil && st.rs.Conn.Open() {
+						held2++
+					}
+				}
+				if c := srv.Srv.VerifCurrentConnections(); c != held2 {
+					fail("counter-differs", fmt.Sprintf("phase %d (connections open for more than 10 s): the server reports %d open connections, %d are actually open", pi, c, held2))
+				}
 			}
 			for range ops {
 				verifsim.Yield("harness/waitops")
